@@ -36,9 +36,15 @@ def obs_key(name):
     return {"density": "rho"}.get(name, "x")
 
 
-def run(rec, name, case, tag):
+def run(rec, name, case, tag, carrier=None):
     t = REG()[name]
-    args, kwargs = t.build(case, CANON)
+    C = CANON
+    if carrier and name != "valid_range":
+        # the same carrier (and the same junk under its masks) on both sides of the relation: what is hidden under a mask
+        # is not data, so it neither shifts nor negates with the data
+        from ..carriers import Carrier
+        C = Carrier(data=carrier[0], junk=carrier[1])
+    args, kwargs = t.build(case, C)
     return flags(rec, name, rec.call(name, t.func(), *args, **kwargs), t.n(case), relation=tag, test=name)
 
 
@@ -72,6 +78,9 @@ def relation_case(draw, tier="quick"):
             out["large"] = True
         if name == "valid_range" and case["kind"] == "dt":
             out["c"] = int(draw(st.integers(-10 ** 9, 10 ** 9)))
+    if draw(st.integers(0, 2)) == 0:
+        out["carrier"] = [draw(st.sampled_from(["masked_junk", "masked_junk", "masked_mixed", "masked_nan", "list_none", "series"])),
+                          draw(st.sampled_from([0.0, 1.0, -9999.0, 12.125, 1e20]))]
     if rel == "tshift":
         out["k"] = draw(st.one_of(st.integers(-10 ** 9, 10 ** 9), st.sampled_from([1, -1, 86400, -1577836800, 31536000])))
         if name == "valid_range":
@@ -132,12 +141,13 @@ def check_relation(out, rec):
     if ambiguous(name, base, other):
         rec.skip("spread_or_rate_near_threshold")
         return
-    r1 = run(rec, name, base, rel)
+    car = out.get("carrier")
+    r1 = run(rec, name, base, rel, car)
     if r1 is SKIP:
         return
-    rec.note(len(set(r1)) >= 2, [f"rel={rel}", f"{rel}:{name}"] + (["two_distinct_flags"] if len(set(r1)) >= 2 else []) +
+    rec.note(len(set(r1)) >= 2, [f"rel={rel}", f"{rel}:{name}"] + ([f"carrier={car[0]}"] if car else []) + (["two_distinct_flags"] if len(set(r1)) >= 2 else []) +
              (["subsecond_shift"] if out.get("subsecond") else []) + (["large_offset"] if out.get("large") else []))
-    r2 = run(rec, name, other, rel)
+    r2 = run(rec, name, other, rel, car)
     if r2 is SKIP:
         return
     want = r1[::-1] if rel == "reverse" else r1
